@@ -3,6 +3,8 @@ package interpreter
 import (
 	"time"
 
+	"github.com/krotik/common/datautil"
+	"github.com/krotik/ecal/engine/pool"
 	"github.com/krotik/ecal/parser"
 	"github.com/krotik/ecal/scope"
 	"github.com/krotik/ecal/util"
@@ -122,4 +124,138 @@ func VerifC15Transparent() {
 	zz.Assert(res0 == res1, "C15.same-result")
 	zz.Assert(log0.String() == log1.String(), "C15.same-log")
 	zz.Assert(c15Dump(vs0) == c15Dump(vs), "C15.same-final-variables")
+}
+
+var c15SuspProgs = []string{
+	"a := 1\nb := 2\nc := a + b\n",
+	"func f(x) {\n  y := x + 1\n  return y\n}\nr := f(1)\nq := r + 1\n",
+	"s := 0\nfor i in [1, 2] {\n  s := s + i\n}\nt := s\n",
+	"r := 0\ntry {\n  raise(\"E\")\n} except e {\n  r := 1\n} finally {\n  r := r + 1\n}\n",
+	"func f(x) {\n  return x + 1\n}\na := 1\nb := f(a) + a\nc := b\n",
+	"func f(x) {\n  return x\n}\ns := 0\nfor i in [1, 2] {\n  s := s + f(i)\n}\n",
+	"func g(x) {\n  return x * 2\n}\nfunc f(x) {\n  y := g(x) + 1\n  return y\n}\nr := f(1) + g(2)\n",
+	"func f(x) {\n  if x > 1 {\n    return 0\n  }\n  return f(x + 1) + x\n}\nr := f(0)\n",
+}
+var c15SuspLines = []int{3, 6, 5, 8, 6, 7, 8, 7}
+
+// c15Tracer is an independent observer in the debugger's place: it records the line of every visited state.
+type c15Tracer struct {
+	util.ECALDebugger
+	lines []int
+}
+
+func (t *c15Tracer) VisitState(node *parser.ASTNode, vs parser.Scope, tid uint64) util.TraceableRuntimeError {
+	if node.Token != nil {
+		t.lines = append(t.lines, node.Token.Lline)
+	}
+	return nil
+}
+func (t *c15Tracer) VisitStepInState(node *parser.ASTNode, vs parser.Scope, tid uint64) util.TraceableRuntimeError {
+	return nil
+}
+func (t *c15Tracer) VisitStepOutState(node *parser.ASTNode, vs parser.Scope, tid uint64, soErr error) util.TraceableRuntimeError {
+	return nil
+}
+func (t *c15Tracer) SetLockingState(mutexeOwners map[string]uint64, mutexLog *datautil.RingBuffer) {}
+func (t *c15Tracer) SetThreadPool(tp *pool.ThreadPool)                                              {}
+
+// VerifC15Suspensions: with a symbolic set of active breakpoints (one further breakpoint set and disabled again) and a
+// driver that answers every suspension with resume, the thread suspends exactly at the lines the statement names: each
+// time it arrives, from a different line than the one it was last suspended on, at a line with an active breakpoint.
+// The line sequence of the program comes from an independent tracer put in the debugger's place in a second run.
+func VerifC15Suspensions() {
+	pi := zz.Choice("prog", len(c15SuspProgs))
+	if f := zz.Param("PROG", -1); f >= 0 {
+		zz.Assume(pi == f)
+	}
+	n := c15SuspLines[pi]
+	// reference: visited lines of the program
+	erp0, _ := zzProvider()
+	tr := &c15Tracer{}
+	erp0.Debugger = tr
+	zzRun(erp0, c15SuspProgs[pi], scope.NewScope(scope.GlobalScope))
+	// debugged run
+	erp, _ := zzProvider()
+	vs := scope.NewScope(scope.GlobalScope)
+	dbg := NewECALDebugger(scope.NewScope(scope.GlobalScope))
+	erp.Debugger = dbg
+	dbg.BreakOnError(false) // suspension at a failing call is a separate, switchable feature
+	ast, err := parser.ParseWithRuntime("t", c15SuspProgs[pi], erp)
+	zz.Assert(err == nil && ast.Runtime.Validate() == nil, "C15.setup")
+	active := make([]bool, n+1)
+	for l := 1; l <= n; l++ {
+		if zz.Bool("bp" + c15Lbl[l]) {
+			dbg.SetBreakPoint("t", l)
+			active[l] = true
+		}
+	}
+	if d := zz.Choice("disabled", n+1); d > 0 {
+		dbg.SetBreakPoint("t", d)
+		dbg.DisableBreakPoint("t", d)
+		active[d] = false
+	}
+	var want []int
+	cur := 0
+	for _, l := range tr.lines {
+		if cur != 0 {
+			if l == cur {
+				continue
+			}
+			cur = 0
+		}
+		if l <= n && active[l] {
+			want = append(want, l)
+			cur = l
+		}
+	}
+	finished := false
+	go func() {
+		ast.Runtime.Eval(vs, make(map[string]interface{}), 7)
+		finished = true
+	}()
+	var got []int
+	max := zz.Param("CMDS", 16)
+	for i := 0; i < max && !finished; i++ {
+		zz.Quiesce() // deterministic schedule: the program thread runs until it suspends or ends
+		if finished {
+			break
+		}
+		ed := dbg.(*ecalDebugger)
+		ed.lock.RLock()
+		is := ed.interrogationStates[7]
+		ed.lock.RUnlock()
+		zz.Assert(is != nil && !is.running, "C15.idle-unfinished-thread-is-suspended")
+		if is == nil {
+			break
+		}
+		got = append(got, is.node.Token.Lline)
+		dbg.Continue(7, util.Resume)
+	}
+	if !finished {
+		zz.Quiesce()
+	}
+	if !finished {
+		dbg.StopThreads(0) // command bound used up: compare the prefix
+		if len(want) > len(got) {
+			want = want[:len(got)]
+		}
+	}
+	zz.Reach("compared")
+	same := len(got) == len(want)
+	for i := 0; same && i < len(got); i++ {
+		same = got[i] == want[i]
+	}
+	if !same {
+		println("C15 suspensions: prog", pi, "finished", finished)
+		for _, l := range tr.lines {
+			println("  visited", l)
+		}
+		for _, l := range want {
+			println("  want", l)
+		}
+		for _, l := range got {
+			println("  got", l)
+		}
+	}
+	zz.Assert(same, "C15.suspends-exactly-at-active-breakpoints-reached-from-another-line")
 }
